@@ -137,7 +137,8 @@ Definition omore_eqb (a b : omore) : bool :=
 
 (* per OTLP request: the xcase (extras, observed payload lengths / fingerprints, observed events and status), the remaining fields of
    its spans in batch order, and per stored row what OutputQuery returned of them *)
-Record ycase := { yc_x : xcase; yc_more : list omore; yc_read : list (option omore) }.
+(* yc_read: per stored row the further fields and the dropped_attributes_count of every event of the span OutputQuery returned *)
+Record ycase := { yc_x : xcase; yc_more : list omore; yc_read : list (option (omore * list Z)) }.
 
 Fixpoint zip_more {A} (zs : list A) (ys : list omore) : list (A * omore) :=
   match zs with
@@ -156,7 +157,10 @@ Definition wirey_matches (c : ycase) : bool :=
   let obs := xc_obs (yc_x c) in
   all2 (fun o z => match wirey_of z with Some w => obs_eqb w o | None => false end) obs (firstn (List.length obs) zs)
   && Nat.leb (List.length obs) (List.length zs)
-  && all2 (fun o z => match o with Some y => omore_eqb y (snd z) | None => true end)
+  && all2 (fun o z => match o with
+                      | Some (y, d) => omore_eqb y (snd z) && list_eqb Z.eqb d (map e_dropped (x_events (snd (fst z))))
+                      | None => true
+                      end)
           (yc_read c) (firstn (List.length (yc_read c)) zs).
 (* the read-back half of SpansWireX.wirex_matches (its byte half is superseded by wirey_matches: the bytes now carry the further fields) *)
 Definition wirex_read_matches (c : xcase) : bool :=
@@ -169,14 +173,15 @@ Definition wirex_read_matches (c : xcase) : bool :=
 Definition wirex_read_mismatches (cs : list xcase) : list Z := map xc_id (filter (fun c => negb (wirex_read_matches c)) cs).
 Definition wirey_mismatches (cs : list ycase) : list Z := map (fun c => xc_id (yc_x c)) (filter (fun c => negb (wirey_matches c)) cs).
 (* the property's demand on the OBSERVED read-back, independent of the decoders' model: the k-th stored span of a request returns the
-   trace state, dropped counts, flags and links of the k-th pushed span *)
-Fixpoint yread_ok (os : list (option omore)) (ys : list omore) : bool :=
-  match os, ys with
-  | o :: os', y :: ys' => match o with Some r => omore_eqb r y | None => true end && yread_ok os' ys'
-  | _, _ => true
+   trace state, dropped counts (its events' included), flags and links of the k-th pushed span *)
+Fixpoint yread_ok (os : list (option (omore * list Z))) (xs : list oextra) (ys : list omore) : bool :=
+  match os, xs, ys with
+  | o :: os', x :: xs', y :: ys' =>
+      match o with Some (r, d) => omore_eqb r y && list_eqb Z.eqb d (map e_dropped (x_events x)) | None => true end && yread_ok os' xs' ys'
+  | _, _, _ => true
   end.
 Definition yread_violations (cs : list ycase) : list Z :=
-  map (fun c => xc_id (yc_x c)) (filter (fun c => negb (yread_ok (yc_read c) (yc_more c))) cs).
+  map (fun c => xc_id (yc_x c)) (filter (fun c => negb (yread_ok (yc_read c) (xc_extra (yc_x c)) (yc_more c))) cs).
 (* every payload of the run lies in the domain of the round-trip theorem and decodes to what was encoded *)
 Definition wirey_roundtrips (c : ycase) : bool :=
   forallb (fun z => match t_payload (fst (fst (fst z))) with
